@@ -152,31 +152,17 @@ Proof.
 Qed.
 
 (* ---------- length / strpos ---------- *)
-Lemma blen_ascii l : is_ascii l = true -> blen l = zlen l.
+(* LENGTH counts code points (fix 3767e33): equal to the documented value for EVERY string *)
+Theorem length_agrees s : spec_ok (s_length s) (m_length s) = true.
+Proof. destruct s; apply spec_ok_refl. Qed.
+(* STRPOS / POSITION return the code point position (fix 1657caf), for every haystack *)
+Theorem strpos_agrees s sub : spec_ok (s_strpos s sub) (m_strpos s sub) = true.
 Proof.
-  unfold blen, zlen. induction l as [|c l IH]; [reflexivity|].
-  cbn [is_ascii forallb map zsum fold_right length]. intro H. apply andb_true_iff in H as [Hc Hl].
-  fold (zsum (map utf8_len l)). rewrite (IH Hl). unfold utf8_len. rewrite Hc. lia.
-Qed.
-Theorem length_agrees s : k_length s = 0 -> spec_ok (s_length s) (m_length s) = true.
-Proof.
-  unfold k_length. destruct s as [l|]; cbn [gs]; [|reflexivity].
-  destruct (is_ascii l) eqn:A; [|discriminate]. intros _. apply spec_ok_eq. cbn. now rewrite blen_ascii.
-Qed.
-Lemma is_ascii_firstn n l : is_ascii l = true -> is_ascii (firstn n l) = true.
-Proof.
-  revert l. induction n as [|n IH]; intros [|c l]; cbn [firstn is_ascii forallb]; try reflexivity.
-  intro H. apply andb_true_iff in H as [Hc Hl]. rewrite Hc. apply IH, Hl.
-Qed.
-Theorem strpos_agrees s sub : k_strpos s sub = 0 -> spec_ok (s_strpos s sub) (m_strpos s sub) = true.
-Proof.
-  unfold k_strpos. destruct s as [l|]; cbn [gs]; [|reflexivity]. destruct sub as [p|]; [|reflexivity].
-  destruct (is_ascii l) eqn:A; [|discriminate]. intros _. apply spec_ok_eq. unfold m_strpos.
-  destruct (find_str p l) as [i|] eqn:F; [|reflexivity]. f_equal.
-  rewrite blen_ascii by (apply is_ascii_firstn, A). unfold zlen. rewrite firstn_length.
+  destruct s as [l|]; [|reflexivity]. destruct sub as [p|]; [|reflexivity].
+  apply spec_ok_eq. unfold m_strpos. destruct (find_str p l) as [i|] eqn:F; [|reflexivity]. f_equal.
+  unfold zlen. rewrite firstn_length.
   assert (i <= length l)%nat.
-  { unfold find_str in F. destruct p as [|c p]; [injection F as <-; lia|].
-    apply find_sub_bound in F. lia. }
+  { unfold find_str in F. destruct p as [|c p]; [injection F as <-; lia|]. apply find_sub_bound in F. lia. }
   lia.
 Qed.
 
@@ -298,13 +284,14 @@ Proof.
   destruct (zlen x =? zlen y) eqn:E1; cbn [andb]; [|discriminate].
   destruct (blen x =? blen y) eqn:E2; [|discriminate]. intros _. apply spec_ok_eq. unfold m_hamming. now rewrite E1, E2.
 Qed.
-Theorem translate_agrees s f t : k_translate s f t = 0 -> spec_ok (s_translate s f t) (m_translate s f t) = true.
+(* TRANSLATE omits unmatched-target characters (fix e4bd2bb): equal to the documented value for all arguments;
+   the pre-fix mapping tr_eng differs exactly on the characters it failed to drop *)
+Theorem translate_agrees s f t : spec_ok (s_translate s f t) (m_translate s f t) = true.
+Proof. apply spec_ok_refl. Qed.
+Theorem translate_prefix_behaviour fr tl c :
+  tr_eng fr tl c = tr_std fr tl c \/ (tr_std fr tl c = [] /\ tr_eng fr tl c = [c]).
 Proof.
-  unfold k_translate. destruct s as [l|]; [|reflexivity]. destruct f as [fr|]; [|reflexivity]. destruct t as [tl|]; [|reflexivity].
-  destruct (existsb (tr_drops fr tl) l) eqn:E; [discriminate|]. intros _. apply spec_ok_eq. unfold m_translate. f_equal.
-  induction l as [|c l IH]; [reflexivity|]. cbn [existsb flat_map] in *. apply orb_false_iff in E as [Ec El].
-  rewrite (IH El). f_equal. unfold tr_drops, tr_eng, tr_std in *.
-  destruct (index_of c fr 0); [|reflexivity]. destruct (nth_error tl n); [reflexivity|discriminate].
+  unfold tr_eng, tr_std. destruct (index_of c fr 0); [|now left]. destruct (nth_error tl n); [now left|now right].
 Qed.
 Theorem concat_agrees args : k_concat args = 0 -> spec_ok (s_concat args) (m_concat args) = true.
 Proof.
@@ -333,7 +320,7 @@ Fixpoint sx_emit (prev : Z) (rest : str) : str :=
   | [] => []
   | c :: r => let code := sx_code c in
               (if negb (code =? 0) && negb (code =? prev) then [48 + code] else [])
-              ++ sx_emit (if code =? 0 then prev else code) r
+              ++ sx_emit (if (c =? 72) || (c =? 87) then prev else code) r
   end.
 Lemma sx_eng_emit : forall rest prev out, (length out < 4)%nat ->
   sx_eng prev out rest = firstn 4 (out ++ sx_emit prev rest).
@@ -342,7 +329,7 @@ Proof.
   - cbn [sx_eng sx_emit]. rewrite app_nil_r. symmetry. apply firstn_all2. lia.
   - cbn [sx_eng sx_emit]. cbv zeta.
     destruct (negb (sx_code c =? 0) && negb (sx_code c =? prev)) eqn:E; cbn [andb app].
-    + set (d := 48 + sx_code c) in *. set (p' := if sx_code c =? 0 then prev else sx_code c).
+    + set (d := 48 + sx_code c) in *. set (p' := if (c =? 72) || (c =? 87) then prev else sx_code c).
       destruct (Z.leb_spec 4 (zlen (out ++ [d]))) as [H4|H4]; unfold zlen in H4; rewrite app_length in H4; cbn [length] in H4.
       * replace (out ++ d :: sx_emit p' r) with ((out ++ [d]) ++ sx_emit p' r) by (rewrite <- app_assoc; reflexivity).
         rewrite firstn_app. replace (4 - length (out ++ [d]))%nat with 0%nat by (rewrite app_length; cbn [length]; lia).
@@ -350,38 +337,28 @@ Proof.
       * rewrite IH by (rewrite app_length; cbn [length]; lia). rewrite <- app_assoc. reflexivity.
     + apply IH, L.
 Qed.
-Lemma sx_emit_std : forall rest prev seen, sx_known prev seen rest = false ->
-  sx_emit prev rest = sx_std (if seen then 0 else prev) rest.
+Lemma sx_emit_std : forall rest prev, sx_emit prev rest = sx_std prev rest.
 Proof.
-  induction rest as [|c r IH]; intros prev seen K; [reflexivity|].
-  cbn [sx_known sx_emit sx_std] in *. cbv zeta in *.
-  destruct ((c =? 72) || (c =? 87)) eqn:HW.
+  induction rest as [|c r IH]; intro prev; [reflexivity|].
+  cbn [sx_emit sx_std]. cbv zeta. destruct ((c =? 72) || (c =? 87)) eqn:HW.
   - assert (sx_code c = 0) as C0.
     { apply orb_true_iff in HW as [H|H]; apply Z.eqb_eq in H; subst c; reflexivity. }
-    rewrite C0 in *. cbn [Z.eqb negb andb app orb] in *. rewrite orb_false_r in K. apply IH, K.
-  - destruct (Z.eqb_spec (sx_code c) 0) as [C0|C0]; cbn [negb andb app orb] in *.
-    + rewrite orb_true_r in K. rewrite (IH _ _ K), C0. reflexivity.
-    + destruct seen; cbn [andb] in *.
-      * destruct (Z.eqb_spec (sx_code c) prev) as [Cp|Cp]; [discriminate|]. cbn [negb].
-        replace (sx_code c =? 0) with false by lia. cbn [negb app]. f_equal. apply (IH _ false K).
-      * rewrite andb_false_r in K. destruct (Z.eqb_spec (sx_code c) prev) as [Cp|Cp]; cbn [negb app];
-          [apply (IH _ false K)|f_equal; apply (IH _ false K)].
+    rewrite C0. cbn [Z.eqb negb andb app]. apply IH.
+  - now rewrite IH.
 Qed.
-Theorem soundex_eng_std s : (match map to_upper s with [] => false | c :: r => sx_known (sx_code c) false r end) = false ->
-  soundex_eng s = soundex_std s.
+(* the engine loop (with its early exit at four characters) IS American Soundex, for every string *)
+Theorem soundex_eng_std s : soundex_eng s = soundex_std s.
 Proof.
-  unfold soundex_eng, soundex_std. destruct (map to_upper s) as [|c r]; [reflexivity|]. intro K.
-  rewrite sx_eng_emit by (cbn [length]; lia). rewrite (sx_emit_std _ _ false K). reflexivity.
+  unfold soundex_eng, soundex_std. destruct (map to_upper s) as [|c r]; [reflexivity|].
+  rewrite sx_eng_emit by (cbn [length]; lia). rewrite sx_emit_std. reflexivity.
 Qed.
-Theorem soundex_agrees s : k_soundex s = 0 -> spec_ok (s_soundex s) (m_soundex s) = true.
+Theorem soundex_agrees s : spec_ok (s_soundex s) (m_soundex s) = true.
 Proof.
-  unfold k_soundex, s_soundex. destruct s as [l|]; [|reflexivity]. cbn [gs]. intro K.
-  destruct (forallb is_letter l); [|reflexivity]. apply spec_ok_eq. unfold m_soundex. f_equal. symmetry.
-  apply soundex_eng_std. destruct (map to_upper l) as [|c r]; [reflexivity|].
-  destruct (sx_known (sx_code c) false r); [discriminate|reflexivity].
+  unfold s_soundex. destruct s as [l|]; [|reflexivity].
+  destruct (forallb is_letter l); [|reflexivity]. apply spec_ok_eq. unfold m_soundex. now rewrite soundex_eng_std.
 Qed.
 
-
+(* ---------- codecs ---------- *)
 Lemma range_check (f : Z -> bool) (n : nat) :
   forallb f (map Z.of_nat (seq 0 n)) = true -> forall d, 0 <= d < Z.of_nat n -> f d = true.
 Proof.
@@ -405,6 +382,12 @@ Proof.
   - rewrite !hex_digit_up, IH by assumption. f_equal. f_equal. rewrite Z.mul_comm. symmetry. apply Z.div_mod. lia.
   - rewrite !hex_digit_char, IH by assumption. f_equal. f_equal. rewrite Z.mul_comm. symmetry. apply Z.div_mod. lia.
 Qed.
+
+(* TO_HEX renders uppercase (fix e21b72e): the documented value for every byte string, and from_hex inverts it *)
+Theorem to_hex_agrees b : spec_ok (s_to_hex b) (m_to_hex b) = true.
+Proof. apply spec_ok_refl. Qed.
+Theorem from_hex_to_hex b : bytes b -> match m_to_hex (Some b) with RStr h => m_from_hex (Some h) = RStr b | _ => False end.
+Proof. intro B. unfold m_to_hex, m_from_hex. now rewrite hex_roundtrip. Qed.
 
 (* ---------- base64 ---------- *)
 Lemma b64_idx_char i : 0 <= i < 64 -> b64_idx (b64_char i) = Some i /\ (b64_char i =? 61) = false.
@@ -671,37 +654,60 @@ Proof.
 Qed.
 
 (* ---------- shifts ---------- *)
+(* shifts (fix 08c65d9): the documented value for EVERY non-negative amount; only negative amounts are left
+   (Trino raises an error, the engine saturates): class shift-negative *)
 Theorem shift_agrees kind x s : k_shift x s = 0 -> spec_ok (s_shift kind x s) (m_shift kind x s) = true.
 Proof.
   unfold k_shift. destruct x as [a|]; [|reflexivity]. destruct s as [sv|]; [|reflexivity].
-  destruct (Z.leb_spec 64 sv) as [|Hlt]; [discriminate|].
-  destruct (Z.ltb_spec sv 0) as [Hneg|Hpos]; cbn [andb].
-  - destruct (Z.ltb_spec (sh_amount sv) 64) as [|Hge]; [discriminate|]. intros _.
-    apply spec_ok_eq. unfold m_shift, s_shift. replace (sv <? 0) with true by lia.
-    replace (64 <=? sh_amount sv) with true by lia. reflexivity.
-  - intros _. apply spec_ok_eq. unfold m_shift, s_shift. replace (sv <? 0) with false by lia.
-    assert (sh_amount sv = sv) as -> by (unfold sh_amount, two32; apply Z.mod_small; lia).
-    replace (64 <=? sv) with false by lia. reflexivity.
+  destruct (Z.ltb_spec sv 0) as [|Hpos]; [discriminate|]. intros _.
+  apply spec_ok_eq. unfold m_shift, s_shift. replace (sv <? 0) with false by lia. replace (0 <=? sv) with true by lia.
+  cbn [andb]. destruct (Z.leb_spec 64 sv); [replace (sv <? 64) with false by lia|replace (sv <? 64) with true by lia]; reflexivity.
+Qed.
+Theorem shift_nonneg_total kind a sv : 0 <= sv -> spec_ok (s_shift kind (Some a) (Some sv)) (m_shift kind (Some a) (Some sv)) = true.
+Proof. intro H. apply shift_agrees. unfold k_shift. now replace (sv <? 0) with false by lia. Qed.
+(* an amount >= 64 no longer panics or wraps: it yields exactly the mathematical shift of the 64-bit word *)
+Theorem shift_ge64_math a sv : is_i64 a = true -> 64 <= sv ->
+  m_shift 0 (Some a) (Some sv) = RInt 0 /\ (to_u64 a * 2 ^ sv) mod two64 = 0 /\
+  m_shift 1 (Some a) (Some sv) = RInt 0 /\ to_u64 a / 2 ^ sv = 0 /\
+  m_shift 2 (Some a) (Some sv) = RInt (Z.shiftr a sv).
+Proof.
+  unfold is_i64. intros Ha Hs. unfold m_shift. replace ((0 <=? sv) && (sv <? 64)) with false by lia.
+  assert (two64 <= 2 ^ sv) as P by (rewrite two64_pow; apply Z.pow_le_mono_r; lia).
+  assert (2 ^ sv = two64 * 2 ^ (sv - 64)) as E.
+  { rewrite two64_pow, <- Z.pow_add_r by lia. f_equal. lia. }
+  pose proof (Z.mod_pos_bound a two64 ltac:(unfold two64; lia)) as B.
+  repeat split.
+  - rewrite E. replace (to_u64 a * (two64 * 2 ^ (sv - 64))) with ((to_u64 a * 2 ^ (sv - 64)) * two64) by lia.
+    apply Z_mod_mult.
+  - apply Z.div_small. unfold to_u64. lia.
+  - unfold shift_saturated. change (2 =? 2) with true. cbv iota. f_equal. rewrite Z.shiftr_div_pow2 by lia.
+    destruct (Z.ltb_spec a 0).
+    + apply (Z.div_unique a (2 ^ sv) (-1) (a + 2 ^ sv)); [left|]; unfold two63, two64 in *; lia.
+    + symmetry. apply Z.div_small. unfold two63, two64 in *. lia.
+Qed.
+(* negative amounts are no longer wrapped modulo 2^32 *)
+Theorem shift_negative_saturates kind a sv : sv < 0 ->
+  m_shift kind (Some a) (Some sv) = RInt (shift_saturated kind a) /\ s_shift kind (Some a) (Some sv) = Some RErr.
+Proof.
+  intro H. unfold m_shift, s_shift. replace (0 <=? sv) with false by lia. replace (sv <? 0) with true by lia. now split.
 Qed.
 (* what the in-range results are, as words / numbers *)
 Theorem shift_left_word a k : 0 <= k < 64 ->
   res_bits (m_shift 0 (Some a) (Some k)) (fun r => to_u64 r = (a * 2 ^ k) mod two64).
 Proof.
-  intros Hk. unfold m_shift, res_bits. assert (sh_amount k = k) as -> by (unfold sh_amount, two32; apply Z.mod_small; lia).
-  replace (64 <=? k) with false by lia. change (0 =? 0) with true. cbv iota. rewrite to_u64_to_i64. unfold to_u64.
-  apply Zmult_mod_idemp_l.
+  intros Hk. unfold m_shift, res_bits, shift_in_range. replace ((0 <=? k) && (k <? 64)) with true by lia.
+  change (0 =? 0) with true. cbv iota. rewrite to_u64_to_i64. unfold to_u64. apply Zmult_mod_idemp_l.
 Qed.
 Theorem shift_right_arith_value a k : 0 <= k < 64 -> m_shift 2 (Some a) (Some k) = RInt (Z.shiftr a k).
 Proof.
-  intros Hk. unfold m_shift. assert (sh_amount k = k) as -> by (unfold sh_amount, two32; apply Z.mod_small; lia).
-  replace (64 <=? k) with false by lia. change (2 =? 0) with false. change (2 =? 1) with false. cbv iota.
-  f_equal. symmetry. apply Z.shiftr_div_pow2. lia.
+  intros Hk. unfold m_shift, shift_in_range. replace ((0 <=? k) && (k <? 64)) with true by lia.
+  change (2 =? 0) with false. change (2 =? 1) with false. cbv iota. f_equal. symmetry. apply Z.shiftr_div_pow2. lia.
 Qed.
 Theorem shift_right_logical_word a k : 0 <= k < 64 ->
   res_bits (m_shift 1 (Some a) (Some k)) (fun r => to_u64 r = Z.shiftr (to_u64 a) k).
 Proof.
-  intros Hk. unfold m_shift, res_bits. assert (sh_amount k = k) as -> by (unfold sh_amount, two32; apply Z.mod_small; lia).
-  replace (64 <=? k) with false by lia. change (1 =? 0) with false. change (1 =? 1) with true. cbv iota.
+  intros Hk. unfold m_shift, res_bits, shift_in_range. replace ((0 <=? k) && (k <? 64)) with true by lia.
+  change (1 =? 0) with false. change (1 =? 1) with true. cbv iota.
   rewrite to_u64_to_i64. rewrite Z.shiftr_div_pow2 by lia. apply Z.mod_small.
   pose proof (Z.mod_pos_bound a two64 ltac:(unfold two64; lia)) as B. unfold to_u64. split.
   - apply Z.div_pos; [lia|]. apply Z.pow_pos_nonneg; lia.
@@ -828,13 +834,21 @@ Proof.
 Qed.
 
 (* day-of-week: the engine's Sunday-based numbering never equals the ISO numbering *)
-Theorem dow_sunday_vs_iso z : d_dow_sun z = d_dow_iso z mod 7 + 1 /\ d_dow_sun z <> d_dow_iso z /\ 1 <= d_dow_iso z <= 7.
-Proof. unfold d_dow_sun, d_dow_iso. repeat split; Z.div_mod_to_equations; lia. Qed.
-Theorem dow_iso_epoch : d_dow_iso 0 = 4 /\ forall z, d_dow_iso (z + 7) = d_dow_iso z.
+(* DAY_OF_WEEK is the ISO day of the week for EVERY date (fix 0d7bffe): Monday = 1 .. Sunday = 7, 1970-01-01 a
+   Thursday, period 7; the pre-fix Sunday-based numbering d_dow_sun agreed with it on no date *)
+Theorem day_of_week_agrees d : spec_ok (s_day_of_week d) (m_day_of_week d) = true.
 Proof.
-  split; [reflexivity|]. intro z. unfold d_dow_iso. replace (z + 7 + 3) with (z + 3 + 1 * 7) by lia.
-  now rewrite Z_mod_plus_full.
+  unfold s_day_of_week, m_day_of_week, sdfun, dfun. destruct d as [z|]; [|reflexivity].
+  destruct (date_ok z); [apply spec_ok_refl|reflexivity].
 Qed.
+Theorem day_of_week_iso z :
+  m_day_of_week (Some z) = RInt (d_dow_iso z) /\ 1 <= d_dow_iso z <= 7 /\ d_dow_iso (z + 1) = d_dow_iso z mod 7 + 1
+  /\ d_dow_iso (z + 7) = d_dow_iso z /\ d_dow_sun z <> d_dow_iso z.
+Proof.
+  split; [reflexivity|]. unfold d_dow_iso, d_dow_sun. repeat split; Z.div_mod_to_equations; lia.
+Qed.
+Theorem dow_iso_epoch : d_dow_iso 0 = 4 /\ d_dow_iso (days_from_civil 2024 1 1) = 1 /\ d_dow_iso (days_from_civil 2024 1 7) = 7.
+Proof. repeat split; reflexivity. Qed.
 (* add_months: the result is the requested month with the day clamped to the month's length *)
 Theorem add_months_clamps z k :
   let '(y, m, d) := civil_from_days z in
@@ -883,13 +897,16 @@ Qed.
 (* every known class is inhabited: Model.dev_witnesses *)
 Theorem deviations_witnessed : forallb (fun b => b) dev_witnesses = true.
 Proof. vm_compute. reflexivity. Qed.
+(* the witnesses of the eight repaired classes now give the documented value *)
+Theorem regressions_fixed : forallb (fun b => b) fixed_regressions = true.
+Proof. vm_compute. reflexivity. Qed.
 
 (* ---------- the hypotheses of the theorems above are satisfiable (non-trivial instances) ---------- *)
 Example ex_lev : lev_model [107;105;116;116;101;110] [115;105;116;116;105;110;103] = 3 /\ lev_spec [233;128512] [128512] = 1.
 Proof. split; reflexivity. Qed.
 Example ex_luhn : k_luhn (Some [55;57;57;50;55;51;57;56;55;49;51]) = 0 /\ m_luhn (Some [55;57;57;50;55;51;57;56;55;49;51]) = RBool true.
 Proof. split; reflexivity. Qed.
-Example ex_soundex : k_soundex (Some [82;111;98;101;114;116]) = 0 /\ m_soundex (Some [82;111;98;101;114;116]) = RStr [82;49;54;51]
+Example ex_soundex : forallb is_letter [82;111;98;101;114;116] = true /\ m_soundex (Some [82;111;98;101;114;116]) = RStr [82;49;54;51]
   /\ m_soundex (Some [65;115;104;99;114;97;102;116]) = RStr [65;50;54;49].
 Proof. repeat split; reflexivity. Qed.
 Example ex_substr : k_substr false (Some [104;233;108;108;111]) (Some 2) (Some (Some 3)) = 0
@@ -905,7 +922,7 @@ Example ex_codecs : enc_b64 [104;105] = [97;71;107;61] /\ enc_b32 [104;105] = [7
   /\ urlenc_std [97;32;233] = [97;43;37;69;57] /\ signed_digits 36 (-1295) = [45;122;122] /\ radix_ok 36 = true.
 Proof. repeat split; reflexivity. Qed.
 Example ex_bits : m_bitwise_xor (Some 12) (Some (-10)) = RInt (-6) /\ k_shift (Some 1) (Some 63) = 0
-  /\ m_shift 0 (Some 1) (Some 63) = RInt (- two63) /\ k_bit_count (Some (-1)) (Some 64) = 0 /\ m_bit_count (Some (-1)) (Some 64) = RInt 64.
+  /\ m_shift 0 (Some 1) (Some 63) = RInt (- two63) /\ m_shift 2 (Some (-8)) (Some 64) = RInt (-1) /\ k_bit_count (Some (-1)) (Some 64) = 0 /\ m_bit_count (Some (-1)) (Some 64) = RInt 64.
 Proof. repeat split; reflexivity. Qed.
 Example ex_dates : civil_from_days 19782 = (2024, 2, 29) /\ valid_ymd 2024 2 29 = true /\ add_months 19753 1 = 19782
   /\ k_date_diff (Some 2) (Some 19753) (Some 19813) = 0 /\ d_week 18630 = 53.
